@@ -43,9 +43,10 @@ def cost_inf(S, T, M, N, i, j):
     return ite(mkbool(ci), ite(mkbool(cj), a, b), ite(mkbool(cj), c, 0.0))
 
 
-def sym_input(eng, name):
+def sym_input(eng, name, dtype="float"):
+    """a diagram as the caller stores it: float array (deaths may be +inf) or integer array (all finite)"""
     n = eng.fresh_int("n_" + name, lo=0)
-    a = fresh_symbolic(name, (n, 2), dtype="float", origin="param:" + name, finite=False, eng=eng)
+    a = fresh_symbolic(name, (n, 2), dtype=dtype, origin="param:" + name, finite=(dtype != "float"), eng=eng)
     return a, n
 
 
@@ -53,6 +54,8 @@ def input_requires(a):
     out = []
     for name in ("dgm1", "dgm2"):
         D = getattr(a, name)
+        if getattr(D, "kuf", None) is None:
+            continue                      # integer-typed diagram: every entry is finite by its type
         q = z3.Int("rq_" + name)
         out.append(("%s_births_finite_deaths_finite_or_plus_inf" % name,
                     z3.ForAll([q], z3.Implies(z3.And(q >= 0, q < to_z3(D.shape[0])), z3.And(D.kuf(q, 0) == 0, D.kuf(q, 1) >= 0)),
@@ -93,10 +96,10 @@ def make_cut_filter():
 
 
 # ----------------------------------------------------------------------------- contract
-def bottleneck_contract(want_matching):
+def bottleneck_contract(want_matching, dtype="float"):
     def make_args(eng):
-        d1, n1 = sym_input(eng, "dgm1")
-        d2, n2 = sym_input(eng, "dgm2")
+        d1, n1 = sym_input(eng, "dgm1", dtype)
+        d2, n2 = sym_input(eng, "dgm2", dtype)
         g = {"n1": n1, "n2": n2, "feas": z3.Function("feasK", z3.IntSort(), z3.BoolSort())}
         g["hk_hook"] = hk_hook
         return {"dgm1": d1, "dgm2": d2, "matching": want_matching}, g
@@ -320,7 +323,7 @@ def bottleneck_contract(want_matching):
              1: LoopContract("for i in range(D.shape[0])", inv_graph, havoc={"graph": havoc_graph}, cls="S"),
              2: LoopContract("for i in range(M + N)", inv_rows, havoc={"matchidx": havoc_matchidx}, cls="P")}
     return Contract(MOD, "bottleneck", make_args, requires=input_requires, ensures=ensures, definedness="P",
-                    loops=loops, variant="matching=%s" % want_matching,
+                    loops=loops, variant="matching=%s%s" % (want_matching, "" if dtype == "float" else ",dtype=" + dtype),
                     cuts=[("Sb, Sd = S[:, 0], S[:, 1]", cut_filter), ("ds = np.sort(np.unique(D.flatten()))", cut_matrix)],
                     hints=[("ds = np.sort(np.unique(D.flatten()))", hint_candidates), ("matching = {}", hint_init_ghost),
                            ("d = ds[idx]", hint_probe), ("ds = ds[idx + 1:]", hint_shrink_right)])
@@ -362,5 +365,5 @@ def hk_hook(e, graph):
 
 
 def all_contracts(tier):
-    cs = [bottleneck_contract(False), bottleneck_contract(True)]
+    cs = [bottleneck_contract(False), bottleneck_contract(True), bottleneck_contract(False, "int")]
     return cs, {}
